@@ -29,6 +29,10 @@ func (repo *Repository) VerifClean(ctx context.Context, depth int) error {
 		return errors.Wrap(err, "prune")
 	}
 
+	if err := repo.removeStaleHeadersFile(ctx); err != nil {
+		return errors.Wrap(err, "stale headers file")
+	}
+
 	if err := saveInvalidHashes(ctx, repo.store, repo.invalidHashes); err != nil {
 		return errors.Wrap(err, "invalid hashes")
 	}
